@@ -264,7 +264,8 @@ def c20(tier, seed):
     build.prune_cache()
     jobs = []
     lines = [('line64', []), ('line32-128', ['-DAVEL_L1_CACHE_LINE_SIZE=32', '-DAVEL_L2_CACHE_LINE_SIZE=128', '-DAVEL_L3_CACHE_LINE_SIZE=128']),
-             ('line128', ['-DAVEL_L1_CACHE_LINE_SIZE=128', '-DAVEL_L2_CACHE_LINE_SIZE=128', '-DAVEL_L3_CACHE_LINE_SIZE=128'])]
+             ('line128', ['-DAVEL_L1_CACHE_LINE_SIZE=128', '-DAVEL_L2_CACHE_LINE_SIZE=128', '-DAVEL_L3_CACHE_LINE_SIZE=128']),
+             ('line32', ['-DAVEL_L1_CACHE_LINE_SIZE=32', '-DAVEL_L2_CACHE_LINE_SIZE=32', '-DAVEL_L3_CACHE_LINE_SIZE=32'])]
     cfgs = [configs.parse(n) for n in (['none', 'X86', 'SSE2', 'AVX2', 'ALL'] if tier == 'quick' else ['none', 'X86', 'POPCNT', 'SSE2', 'SSE4_1', 'AVX', 'AVX2', 'F', 'F+VL+BW+DQ+CD', 'ALL'])]
     for c in cfgs:
         for lname, lflags in lines:
@@ -278,10 +279,10 @@ def c20(tier, seed):
     run_jobs(res, jobs, 'C20', std_args(tier, seed, 'C20'))
     res.cls_trivial = lambda code: False
     return finish(res, 'exploration',
-                  rule='prefetch_read/prefetch_write<L1|L2|L3> (untyped, default level, default n, typed with sizeof(T) in {1,4,24,64}) called with the pointer at every offset 0..63 of a line at the start of the data, '
+                  rule='prefetch_read/prefetch_write<L1|L2|L3> (untyped, default level, default n, typed at every level with sizeof(T) in {1,4,24,40,48,64,65,200}) called with the pointer at every offset 0..63 of a line at the start of the data, '
                   'across the page boundary inside the data, straddling into and lying inside inaccessible pages on both sides, on the last byte / first guard byte, nullptr, misaligned null-page and top-of-address-space '
-                  'pointers, x n in {0,1,2,31..33,63..65,127..129,255,4095..4097,3 pages}; read-only data pages make any write fault, a RW arena is compared with its snapshot; '
-                  'san build adds pointers just past / before small heap blocks. builds: with/without SSE macros, line sizes 64 / 32-128 / 128, g++ and clang++, -O0 and -O2. '
+                  'pointers, x n in {0,1,2,31..33,63..65,127..129,255,4095..4097,3 pages}; each call under a 3 s CPU-time watchdog (a call that does not return is a hang record); read-only data pages make any write fault, a RW arena is compared with its snapshot; '
+                  'san build adds pointers just past / before small heap blocks. builds: with/without SSE macros, line sizes 64 / 32-128 / 128 / 32, g++ and clang++, -O0 and -O2. '
                   'explicit AVEL_PREFETCH cannot be built (C19 finding). distinct = (config, build, line-size set, function, placement class).',
                   assumptions=['page protection (kernel) and signal delivery are trusted', 'pointer-overflow UBSan is not used as an oracle (null + offset is outside the statement)'],
                   min_cells=len(cfgs))
